@@ -2,7 +2,7 @@ SPECIFICATION Spec
 CONSTANTS
   Configs = {"vars", "alias", "func", "opt", "trap", "umask", "mixed"}
   Depth = 5
-  Rich = TRUE
+  Rich = FALSE
 VIEW View
 INVARIANT ListingsOK
 INVARIANT HistoryOK
